@@ -118,6 +118,11 @@ class Point:
       if all(_bool(v) for v in vs):
         return ('bool', all(v[1] for v in vs) if a[0] == 'and' else any(v[1] for v in vs))
       return None
+    if op in ('ite', 'cond') and len(a) == 3:
+      c = self.ival(a[0])
+      if _bool(c) or _num(c):
+        return self.ival(a[1] if _as_num(c) else a[2])
+      return None
     if op == 'sub':
       x = self.ival(a[0])
       return x if (x == 'pos' or _num(x) or _bool(x)) else None      # element-wise classes survive indexing
